@@ -1035,24 +1035,25 @@ def _meta_dict(meta: Optional[Metadata]) -> dict[str, str]:
         # Literal keys are required for typing purposes, so first
         # construct the dict and then remove those that weren't specified.
         d = {
-            'dc:contributor': meta.get('contributor', ''),
-            'dc:coverage': meta.get('coverage', ''),
-            'dc:creator': meta.get('creator', ''),
-            'dc:date': meta.get('date', ''),
-            'dc:description': meta.get('description', ''),
-            'dc:format': meta.get('format', ''),
-            'dc:identifier': meta.get('identifier', ''),
-            'dc:publisher': meta.get('publisher', ''),
-            'dc:relation': meta.get('relation', ''),
-            'dc:rights': meta.get('rights', ''),
-            'dc:source': meta.get('source', ''),
-            'dc:subject': meta.get('subject', ''),
-            'dc:title': meta.get('title', ''),
-            'dc:type': meta.get('type', ''),
-            'status': meta.get('status', ''),
-            'note': meta.get('note', ''),
+            'dc:contributor': meta.get('contributor'),
+            'dc:coverage': meta.get('coverage'),
+            'dc:creator': meta.get('creator'),
+            'dc:date': meta.get('date'),
+            'dc:description': meta.get('description'),
+            'dc:format': meta.get('format'),
+            'dc:identifier': meta.get('identifier'),
+            'dc:publisher': meta.get('publisher'),
+            'dc:relation': meta.get('relation'),
+            'dc:rights': meta.get('rights'),
+            'dc:source': meta.get('source'),
+            'dc:subject': meta.get('subject'),
+            'dc:title': meta.get('title'),
+            'dc:type': meta.get('type'),
+            'status': meta.get('status'),
+            'note': meta.get('note'),
         }
-        d = {key: val for key, val in d.items() if val}
+        # an empty string is a value (e.g., dc:type=""), only absent keys are dropped
+        d = {key: val for key, val in d.items() if val is not None}
         # this one requires a conversion, so do it separately
         if 'confidenceScore' in meta:
             d['confidenceScore'] = str(meta['confidenceScore'])
